@@ -50,3 +50,6 @@ add("C18", "exploration", "recorded node calls of the real Agent compared online
 add("C20", "exploration", "goroutine-stack census of the keep-alive loop after every lifecycle step; cadence count; CLI bound probes on the built binary",
     "Random Start/Stop/Wait/forced-update sequences with pool failures at connect, first and k-th keep-alive; the number of live serveUpdates goroutines is read from a dump of all stacks after every step; concurrent Starts; keep-alives per window; the built binary's --update-interval bounds and SIGINT shutdown.",
     "Stop on an idle agent is not exercised; cadence upper bound is the logical ticker bound, lower bound deliberately loose.")
+add("C16", "exploration", "exhaustive probing of a source-derived name grid and per-method arity/type grid against the built binaries and the in-process registry, with invocation counters / state digest",
+    "Names derived from the tree with go/parser x prefixes x case variants probed against the built pool binary (HTTP, WebSocket), the built agent binary (reverse channel) and in-process registries; per registered method every wrong arity, absent/null/non-array params and every other JSON type per position must give invalid-params and not run the method.",
+    "Exhaustive over the generated grid only; null at a parameter position is not treated as wrongly typed.")
